@@ -255,6 +255,7 @@ fn supervisor(args: Args) {
                        else { "process-abort" };
             r.count("exits", 1);
             avoid.insert(entry.clone());
+            if entry.contains("/history/") { avoid.insert("history".into()); }
             r.distinct("entries_left_out_after_process_death", entry.clone());
             let key_lines: Vec<String> = std::fs::read_to_string(&cerr)
                 .unwrap_or_default().lines().filter(|l| {
@@ -355,10 +356,6 @@ impl FastSigner {
             openssl::rsa::Rsa::generate(2048).expect("rsa")
         ).expect("pkey");
         FastSigner { id: gen_key(), alt: gen_key(), one_off: gen_key() }
-    }
-    fn from_pems(id: &[u8], alt: &[u8], one: &[u8]) -> FastSigner {
-        let p = |b: &[u8]| PKey::private_key_from_pem(b).expect("pem");
-        FastSigner { id: p(id), alt: p(alt), one_off: p(one) }
     }
     fn key(&self, k: Kid) -> &PKey<Private> {
         match k { Kid::Id => &self.id, Kid::Alt => &self.alt }
@@ -545,8 +542,12 @@ fn digest_parts(w: &World) -> BTreeMap<String, u64> {
     let hv = |v: Value| fnv(v.to_string().as_bytes());
     for ca in w.ca_handles() {
         if let Ok(c) = k.ca_manager().get_ca(&h(&ca)) {
+            // a child that calls in is unsuspended before its request is
+            // looked at: that is not an effect of the (refused) request
+            let mut info = serde_json::to_value(c.as_ca_info()).unwrap();
+            if let Some(m) = info.as_object_mut() { m.remove("suspended_children"); }
             parts.insert(format!("ca:{ca}"), hv(json!({
-                "info": serde_json::to_value(c.as_ca_info()).unwrap(),
+                "info": info,
                 "roas": serde_json::to_value(c.configured_roas()).unwrap(),
                 "aspas": serde_json::to_value(
                     c.aspas_definitions_show()).unwrap(),
@@ -628,24 +629,38 @@ impl Out {
     }
 }
 
-/// Digits dropped, quoted parts blanked, 40 chars.
+/// Digits dropped, quoted parts blanked, runs collapsed; the start of the
+/// message and what follows its last ": " (the innermost cause).
 fn norm(s: &str) -> String {
     let mut out = String::new();
-    let cs: Vec<char> = s.chars().collect();
+    let cs: Vec<char> = s.chars().take(2000).collect();
     let mut i = 0;
-    while i < cs.len() && out.chars().count() < 40 {
+    let mut last = '\0';
+    let mut run = 0;
+    while i < cs.len() {
         let c = cs[i];
-        if c == '\'' || c == '"' || c == '`' {
-            if let Some(j) = cs[i + 1..].iter().take(300).position(|x| *x == c) {
-                out.push(c); out.push('_'); out.push(c);
-                i += j + 2;
-                continue
-            }
+        if (c == '\'' || c == '"' || c == '`')
+            && let Some(j) = cs[i + 1..].iter().take(300).position(|x| *x == c)
+        {
+            out.push(c); out.push('_'); out.push(c);
+            i += j + 2;
+            last = c;
+            continue
         }
-        if !c.is_ascii_digit() && !c.is_control() { out.push(c) }
         i += 1;
+        if c.is_ascii_digit() || c.is_control() { continue }
+        if c == last { run += 1; if run >= 2 { continue } } else { run = 0 }
+        last = c;
+        out.push(c);
     }
-    out
+    let head: String = out.chars().take(24).collect();
+    match out.rfind(": ") {
+        Some(p) if p > 24 => {
+            let tail: String = out[p + 2..].chars().take(32).collect();
+            format!("{head}~{tail}")
+        }
+        _ => out.chars().take(44).collect(),
+    }
 }
 
 fn err_class(e: &KErr) -> String {
@@ -1823,10 +1838,6 @@ fn mutate_der(rng: &mut Rng, bytes: &[u8]) -> Vec<u8> {
                 let na = der_at(&mut root, &a).clone();
                 let nb = der_at(&mut root, &b).clone();
                 if op == 6 {
-                    let same: Vec<&Vec<usize>> = paths.iter().filter(|p| {
-                        **p != a && !p.starts_with(&a) && !a.starts_with(p)
-                    }).collect();
-                    let _ = same;
                     *der_at(&mut root, &a) = nb;
                     *der_at(&mut root, &b) = na;
                 } else {
@@ -1896,8 +1907,24 @@ fn mutate_der(rng: &mut Rng, bytes: &[u8]) -> Vec<u8> {
                 }
             }
             _ => {
-                let node = der_at(&mut root, &path);
-                node.indefinite = !node.indefinite && node.kids.is_some();
+                if rng.chance(1, 2) {
+                    let node = der_at(&mut root, &path);
+                    node.indefinite = !node.indefinite && node.kids.is_some();
+                } else {
+                    // swap two OIDs
+                    let mut root2 = root.clone();
+                    let oids: Vec<Vec<usize>> = paths.iter().filter(|p| {
+                        der_at(&mut root2, p).tag == [0x06]
+                    }).cloned().collect();
+                    if oids.len() >= 2 {
+                        let a = rng.pick(&oids).clone();
+                        let b = rng.pick(&oids).clone();
+                        let da = der_at(&mut root, &a).data.clone();
+                        let db = der_at(&mut root, &b).data.clone();
+                        der_at(&mut root, &a).data = db;
+                        der_at(&mut root, &b).data = da;
+                    }
+                }
             }
         }
     }
@@ -3046,13 +3073,18 @@ struct Judge {
     seen_sig: BTreeSet<String>,
     baseline: BTreeMap<String, u64>,
     fast: u64,
+    /// `panic@<location>` (default: one signature per defect, whatever
+    /// entry reached it) or `panic@<entry>:<location>` (--sig-entry 1).
+    sig_entry: bool,
+    /// A violation was added since the last partial report.
+    dirty: bool,
     n: u64,
 }
 
 fn record_class(cx: &mut Ctx, r: &mut Report, entry: &str, out: &Out) {
     let set = cx.classes.entry(entry.to_string()).or_default();
     let mut class = format!("{}|{}", out.kind(), out.class());
-    if !set.contains(&class) && set.len() >= 80 {
+    if !set.contains(&class) && set.len() >= 70 {
         class = format!("{}|other", out.kind());
     }
     set.insert(class.clone());
@@ -3065,12 +3097,13 @@ fn violation_once(
 ) {
     if j.seen_sig.insert(sig.to_string()) {
         r.violation(sig, detail, witness);
+        j.dirty = true;
     }
 }
 
 /// Runs and judges one input. Returns the time krill took.
 fn judge(
-    cx: &mut Ctx, r: &mut Report, j: &mut Judge, args: &Args, inp: &Input
+    cx: &mut Ctx, r: &mut Report, j: &mut Judge, inp: &Input
 ) -> Duration {
     let entry = inp.entry.name();
     j.n += 1;
@@ -3099,7 +3132,9 @@ fn judge(
         .filter(|p| !is_harness_loc(&p.loc)).collect();
     if let Some(p) = krill_panics.first() {
         r.count("panics", 1);
-        let sig = format!("panic@{entry}:{}", short_loc(&p.loc));
+        r.distinct("panic_observed_at", format!("{entry}:{}", short_loc(&p.loc)));
+        let sig = if j.sig_entry { format!("panic@{entry}:{}", short_loc(&p.loc)) }
+                  else { format!("panic@{}", short_loc(&p.loc)) };
         violation_once(r, j, &sig, &format!(
             "krill panicked in thread {} at {} processing an input for \
              {entry}: {}", p.thread, p.loc, p.msg),
@@ -3108,8 +3143,9 @@ fn judge(
                    "all_panics": panics.iter().map(|p| {
                        format!("{} {} {}", p.thread, p.loc, p.msg)
                    }).collect::<Vec<_>>()}));
-        // poisoned locks or half-applied changes show in the digest
-        let healthy = matches!(
+        // poisoned locks or half-applied changes show in the digest; only
+        // the two parser-heavy entries are trusted to that cheaper check
+        let healthy = matches!(inp.entry, E::Notation | E::PathSeg) && matches!(
             util::catch(|| digest_parts(cx.w())), Ok(d) if d == j.baseline
         );
         let _ = take_panics();
@@ -3260,6 +3296,7 @@ fn worker(args: &Args, r: &mut Report) -> Result<(), String> {
         marker: Marker::open(&args.out, &args.work),
         seen_sig: BTreeSet::new(), baseline: digest_parts(cx.w()),
         fast: fast_digest(cx.w()), n: 0,
+        sig_entry: args.extra_u64("sig-entry", 0) == 1, dirty: false,
     };
 
     if let Some(path) = &args.replay {
@@ -3269,7 +3306,7 @@ fn worker(args: &Args, r: &mut Report) -> Result<(), String> {
         let wit = if doc["witness"]["input"].is_object() {
             &doc["witness"]["input"] } else { &doc["witness"] };
         let inp = Input::from_witness(wit).ok_or("witness has no input")?;
-        judge(&mut cx, r, &mut j, args, &inp);
+        judge(&mut cx, r, &mut j, &inp);
         r.note("replayed", json!(true));
         return Ok(())
     }
@@ -3304,20 +3341,27 @@ fn worker(args: &Args, r: &mut Report) -> Result<(), String> {
         let tg = Instant::now();
         let inp = g.input(&cx, entry, cheap);
         r.count("t_gen_us", tg.elapsed().as_micros() as u64);
-        let dt = judge(&mut cx, r, &mut j, args, &inp);
+        let dt = judge(&mut cx, r, &mut j, &inp);
         if dt > Duration::from_millis(15) {
             slow += dt;
             r.count("slow_inputs", 1);
             r.count(&format!("slowms_{}_{}", inp.entry.name(), inp.how),
                     dt.as_millis() as u64);
         }
-        if cx.structural_changes >= 6 || (j.n % 1500 == 0 && !canary(&mut cx)) {
+        let mut worn = cx.structural_changes >= 6;
+        if !worn && j.n % 1500 == 0 {
+            worn = !canary(&mut cx);
+            // the canary is a valid request and may have effects itself
+            j.baseline = digest_parts(cx.w()); j.fast = fast_digest(cx.w());
+        }
+        if worn {
             cx.restore();
             j.baseline = digest_parts(cx.w()); j.fast = fast_digest(cx.w());
             restores += 1;
             r.count("world_restores", 1);
         }
-        if last_partial.elapsed() > Duration::from_secs(5) {
+        if last_partial.elapsed() > Duration::from_secs(5) || j.dirty {
+            j.dirty = false;
             last_partial = Instant::now();
             write_partial(r);
         }
@@ -3598,7 +3642,11 @@ fn http_phase(
         });
         if let Some(p) = panics.iter().find(|p| !is_harness_loc(&p.loc)) {
             r.count("panics", 1);
-            let sig = format!("panic@http:{class}:{}", short_loc(&p.loc));
+            r.distinct("panic_observed_at",
+                       format!("http:{class}:{}", short_loc(&p.loc)));
+            let sig = if j.sig_entry {
+                format!("panic@http:{class}:{}", short_loc(&p.loc))
+            } else { format!("panic@{}", short_loc(&p.loc)) };
             let mut w = witness();
             w["panic"] = json!(p.msg); w["location"] = json!(p.loc);
             w["thread"] = json!(p.thread);
@@ -3619,6 +3667,7 @@ fn http_phase(
                 "the daemon thread ended while serving a request", witness());
             return Ok(())
         }
+        if j.dirty || n % 200 == 0 { j.dirty = false; write_partial(r) }
         if n % 400 == 0 {
             // still alive and serving?
             match http_raw(port, &request_bytes("GET", b"/api/v1/cas/alpha", None)) {
